@@ -171,12 +171,10 @@ let net_step who =
             (if not (cq_is_empty s.sq1) then s.sq1 <- snd (cq_dequeue s.sq1) else s.sq2 <- snd (cq_dequeue s.sq2));
           o
       | Su u ->
-          let u0 = su_with_q u (cq_abs s.sq1) (cq_abs s.sq2) in
-          let (n1, n2) = (List.length u0.su_q1, List.length u0.su_q2) in
-          let ((u', rest), o) = su_run !v !c (zi !now) u0 s.srx in
-          s.sst <- Su u'; s.srx <- rest;
-          if List.length u'.su_q1 < n1 then s.sq1 <- snd (cq_dequeue s.sq1);
-          if List.length u'.su_q2 < n2 then s.sq2 <- snd (cq_dequeue s.sq2);
+          (* the secondary station with the literal class-queue rings (Link/LinkSecQ.v: su_run_r, proved to be su_run on the
+             abstraction of the rings): a class request dequeues, the access-demand bit is `not isEmpty` *)
+          let ((x', rest), o) = su_run_r !v !c (zi !now) { sq_s = u; sq_1 = s.sq1; sq_2 = s.sq2 } s.srx in
+          s.sst <- Su x'.sq_s; s.srx <- rest; s.sq1 <- x'.sq_1; s.sq2 <- x'.sq_2;
           o
       | _ -> []) in
     let txs = ref [] in
